@@ -147,6 +147,21 @@ def run(ctx):
         lines.append('setcookie %s %s %s %s %s %s %d %d %s' % (hx(name), hx(value), o(exp), 'none' if ma is None else ma,
                                                                o(dom), o(path), int(sec), int(ho), 'none' if ss is None else ss))
         meta.append(('setcookie', c))
+    # --- Response::with_cookie: each cookie is its own Set-Cookie line, in the order added, among the other headers ---
+    for i in range(0 if ctx.replay else (3000 if thorough else 200 * ctx.scale)):
+        items, want = [], []
+        for k in range(rng.randint(1, 6)):
+            if rng.random() < 0.6:
+                n_, v_, sec = rng.choice(['id', 'a', 'sid']), rng.choice(['1', 'x y', 'v%d' % k]), rng.random() < 0.3
+                items.append('c:%s:%s:%d' % (hx(n_), hx(v_), int(sec)))
+                want.append((b'set-cookie', ('%s=%s%s' % (n_, v_, '; Secure' if sec else '')).encode()))
+            else:
+                hn, hv = rng.choice(['X-A', 'Vary', 'Content-Type']), 'h%d' % k
+                items.append('h:%s:%s' % (hx(hn), hx(hv)))
+                want.append((hn.lower().encode(), hv.encode()))
+        body = b'body' if rng.random() < 0.5 else b''
+        lines.append('resp_ser_ck 200 %s %s' % (','.join(items), hx(body)))
+        meta.append(('serck', (want, body)))
     m, im = ctx.both(lines)
     rt_lines, rt_meta = [], []
     for line, (kind, info), a, b in zip(lines, meta, m, im):
@@ -167,6 +182,21 @@ def run(ctx):
                 failing = bytes.fromhex(b.split(':')[1]).decode('utf-8', 'replace') != expected_setcookie(info)
                 what = 'Set-Cookie header differs from the attribute list'
             ctx.report({'line': line, 'kind': kind}, b[:600], a[:600], cls='resp-mismatch', failing_input=failing, what=what)
+            continue
+        if kind == 'serck':
+            want, body = info
+            try:
+                v, c, phrase, hs, rest = strict_parse_response(bytes.fromhex(b))
+            except ValueError as e:
+                ctx.report({'line': line, 'kind': kind}, b[:600], 'valid HTTP/1.1 message', cls='resp-invalid', failing_input=True,
+                           what='response built with with_cookie does not serialise to a valid message: %s' % e)
+                continue
+            got = [(k.lower(), val) for k, val in hs]
+            if sorted(got) != sorted(want) or not _same_header_groups(want, got) or rest not in (body, body + b'\r\n'):
+                ctx.report({'line': line, 'kind': kind}, repr(got)[:400], repr(want)[:400], cls='resp-cookie-lines', failing_input=True,
+                           what='one Set-Cookie line per cookie, in the order added, is expected')
+            elif sum(1 for k, _ in want if k == b'set-cookie') >= 2:
+                ctx.mark_nontrivial(line)
             continue
         if kind == 'ser':
             version, code, hs2, body, with_cl = info
